@@ -158,6 +158,67 @@ def one_d(eng, rows, weighted=True, wire=False):
     return obs
 
 
+def _below(eng, B, tau):
+    """true exactly where the base is below the threshold (an undefined base is not below anything)"""
+    b = B.view(np.ndarray) if isinstance(B, np.ndarray) else np.asarray(B, dtype=object)
+    out = np.empty(b.shape, dtype=object)
+    for idx in np.ndindex(b.shape):
+        if eng.symbolic:
+            x = Q.lift(b[idx])
+            nn = x.isnan()
+            if isinstance(nn, (bool, np.bool_)):
+                out[idx] = False if nn else (x < tau)
+            else:
+                out[idx] = (~nn) & (x < tau)
+        else:
+            out[idx] = bool(b[idx] < tau)
+    return out
+
+
+def mask_with_differences(eng):
+    """the minimum-base mask next to subtotal differences, whose base in their own direction is undefined (NaN): never masked"""
+    from .cellworld import CellWorld
+    from .c11 import D, S
+    rows = ("cat", "a", 3, {"missing_at": (1,), "insertions": [D("r1-3", [1], [3], anchor="top"), S("r12", [1, 2])]})
+    cols = ("cat", "b", 3, {"missing_at": (0,), "insertions": [D("c12-3", [1, 2], [3]), S("c23", [2, 3], anchor=1)]})
+    w = CellWorld(eng, [rows, cols], u_concrete=None, u_strict=True)
+    tau = eng.real("tau")
+    part = Cube(w.response(), mask_size=tau).partitions[0]
+    mk = part.min_base_size_mask
+    return [Obs("row_mask", mk.row_mask, _below(eng, part.row_unweighted_bases, tau)),
+            Obs("column_mask", mk.column_mask, _below(eng, part.column_unweighted_bases, tau)),
+            Obs("table_mask", mk.table_mask, _below(eng, part.table_unweighted_bases, tau))]
+
+
+def mask_in_cube_set(eng):
+    """the threshold of a cube set reaches every partition, also the one re-created when a single-column filter cube is re-inflated"""
+    from cr.cube.cube import CubeSet
+    from symx.inject import SymList
+    from .cellworld import NUM_META
+
+    def text_dim(values):
+        els = [{"id": i, "missing": False, "value": v} for i, v in enumerate(values)]
+        els.append({"id": -1, "missing": True, "value": {"?": -1}})
+        return {"derived": False, "references": {"alias": "brand", "name": "brand"},
+                "type": {"class": "enum", "elements": els, "subtype": {"class": "text", "missing_reasons": {"No Data": -1}, "missing_rules": {}}}}
+
+    def resp(values, u, single):
+        r = {"element": "crunch:cube", "dimensions": [text_dim(values)], "counts": SymList(list(u) + [0]), "missing": 0, "n": 12,
+             "measures": {"count": {"data": SymList(list(u) + [0]), "n_missing": 0, "metadata": NUM_META}}}
+        if single:
+            r["is_single_col_cube"] = True
+        return {"result": r}
+    su = [eng.real("su%d" % i, strict_lo=0) for i in range(3)]
+    fu = [eng.real("fu%d" % i, strict_lo=0) for i in range(2)]
+    tau = eng.real("tau")
+    cs = CubeSet([resp(["A", "B", "C"], su, False), resp(["A", "C"], fu, True)], [{}, {}], population=None, min_base=tau)
+    obs = []
+    for c in (0, 1):
+        part = cs.partition_sets[0][c]
+        obs.append(Obs("cube %d min_base_size_mask" % c, part.min_base_size_mask, _below(eng, part.unweighted_bases, tau)))
+    return obs
+
+
 def Vs(kind, alias, size, missing_at=(1,), sub=None, sub2=None):
     kw = {"missing_at": tuple(missing_at)}
     if sub:
@@ -191,6 +252,8 @@ def specs(tier):
     add("1d mr", "one_d", dict(rows=V("mr", "a", 3)))
     add("3d mr x cat x cat p1", "two_d", dict(table=V("mr", "t", 2), rows=V("cat", "a", 2, (1,)), cols=V("cat", "b", 2, (1,)), k=1, mask=False))
     add("3d cat x cat x mr p1", "two_d", dict(table=V("cat", "t", 2, (1,)), rows=V("cat", "a", 2, (1,)), cols=V("mr", "b", 2), k=1, mask=False))
+    add("mask next to subtotal differences (undefined bases)", "mask_with_differences", dict())
+    add("mask threshold in a cube set with a re-inflated filter cube", "mask_in_cube_set", dict())
     # wire-level worlds (props/wire.py): one unknown per wire cell, larger sizes
     add("wire 2d mr3 x cat3", "two_d", dict(rows=V("mr", "a", 3), cols=V("cat", "b", 3, (1,)), wire=True, mask=False))
     add("wire 2d cat3+sub x mr3", "two_d", dict(rows=Vs("cat", "a", 3, (0,), sub=[1, 3]), cols=V("mr", "b", 3), wire=True, mask=False))
